@@ -6,20 +6,20 @@ ALL = [f"C{n:02d}" for n in range(1, 19)]
 
 CHECKS = {
  "C16": dict(cat="model_checking",
-   text="Exhaustive trie exploration of every string over a 9/12-symbol alphabet (both letter cases, zero and non-zero digit, the three separators, non-ASCII letter and digit, case-folding look-alikes, a 3-byte symbol) up to a stated length, each under all 116 sanitiser settings, with the real Sanitizer executed on every case and judged against an independent reference model (exact equality without max_length, invariants + truncation relation with it, idempotence everywhere). Right level: the contract is a pure function of (string, 4 knobs); small-scope exhaustion reaches every interaction of run splitting, zero stripping, truncation and trimming.",
+   text="Exhaustive trie exploration of every string over a 9/12-symbol alphabet (both letter cases, zero and non-zero digit, the three separators, non-ASCII letter and digit, case-folding look-alikes, a 3-byte symbol) up to a stated length, each under all 172 sanitiser settings (separators . - _ and the multi-byte → ·, or none), with the real Sanitizer executed on every case and judged against an independent reference model (exact equality without max_length, invariants + truncation relation with it, idempotence everywhere). Right level: the contract is a pure function of (string, 4 knobs); small-scope exhaustion reaches every interaction of run splitting, zero stripping, truncation and trimming.",
    note="Trusts the 60-line reference model R-SAN; alphabets and length bounds as stated in evidence; behaviour the statement leaves open (cut point, padded integers, separator-less mode) is only checked for invariants.",
    technique="bounded exhaustive enumeration (string trie x settings product) of the real code against a reference model",
    ref="C16"),
  "C08": dict(cat="model_checking",
-   text="Every string over a 9-symbol grammar-relevant alphabet (digits, letter, - . + v, non-ASCII digit and letter) up to length 7 (quick) / 9 (thorough), every string of the SemVer language up to length 9/11 with all its single-symbol edits, and boundary numerals in every numeric position are fed to the real SemVer::from_str / Display and `zerv check`; verdict and printed form are compared with an explicit reference DFA of the SemVer 2.0.0 BNF (itself cross-checked against the semver crate on the explored space). Right level: acceptance and losslessness are per-string facts; small-scope exhaustion plus edit-distance-1 closure reaches every boundary of the grammar.",
+   text="Every string over a 9-symbol grammar-relevant alphabet (digits, letter, - . + v, non-ASCII digit and letter) up to length 7 (quick) / 9 (thorough), every string of the SemVer language up to length 9/11 with all its single-symbol edits (incl. ASCII and Unicode white space, also through the check command), every accepted string up to length 7 padded with 8 white-space strings on either side, and boundary numerals in every numeric position are fed to the real SemVer::from_str / Display and `zerv check`; verdict and printed form are compared with an explicit reference DFA of the SemVer 2.0.0 BNF (itself cross-checked against the semver crate on the explored space). Right level: acceptance and losslessness are per-string facts; small-scope exhaustion plus edit-distance-1 closure reaches every boundary of the grammar.",
    note="Trusts the reference DFA (cross-checked with the semver crate) ; rejecting numerals above u64 is accepted, altering them is not; longer strings / other symbols not explored.",
    technique="bounded exhaustive string enumeration (trie + grammar-guided edit closure) against a reference DFA", ref="C08"),
  "C09": dict(cat="model_checking",
-   text="Character-level trie (18 symbols, length <=5/6), token-level trie (28 tokens incl. upper-case and case-folding look-alikes, depth 4/5), the full product of epoch/release/separator/label/number/post/dev/local/prefix spelling variants and boundary numerals are run through the real PEP440::from_str / Display / Ord and `zerv check`; acceptance, normal form, idempotence and equality-with-original are judged by an interpreter of the Appendix-B regex written as an AST (validated on >1.2M ASCII strings per run against packaging 26.3).",
+   text="Character-level trie (18 symbols, length <=5/6), token-level trie (28 tokens incl. upper-case and case-folding look-alikes, depth 4/5), the full product of epoch/release/separator/label/number/post/dev/local/prefix spelling variants and boundary numerals (incl. zero-padded numbers at and above u32/u64) are run through the real PEP440::from_str / Display / Ord and `zerv check`; acceptance, normal form, idempotence and equality-with-original are judged by an interpreter of the Appendix-B regex written as an AST (validated on >1.2M ASCII strings per run against packaging 26.3).",
    note="Trusts R-PEP (validated against packaging on the ASCII corpus each run; on non-ASCII input the statement's 'ASCII' decides). Rejection above u32 accepted, alteration not. No surrounding white space explored.",
    technique="bounded exhaustive enumeration (char trie, token trie, spelling-variant product) against a regex-AST reference matcher", ref="C09"),
  "C10": dict(cat="model_checking",
-   text="All ordered pairs of a universe of parsed SemVer versions (core numbers {0,1,2,10}^3 x identifier lists of length <=3 over {0,2,10,A,a,a0,B,-}; plus build-metadata and u64-wide sub-universes) are compared by the real Ord/PartialEq and by an independent SemVer 2.0.0 section-11 comparator on decimal strings; antisymmetry, eq<=>Equal and partial_cmp consistency per pair; transitivity on all triples of a sub-universe without any reference; find_max_version_tag on all ordered selections of <=3 tags.",
+   text="All ordered pairs of a universe of parsed SemVer versions (core numbers {0,1,2,10}^3 x identifier lists of length <=3 over {0,2,10,A,a,a0,B,-}; plus build-metadata, u64-wide and hyphenated-identifier (rc-2, rc-10, 1-0, -1, ...) sub-universes) are compared by the real Ord/PartialEq and by an independent SemVer 2.0.0 section-11 comparator on decimal strings; antisymmetry, eq<=>Equal and partial_cmp consistency per pair; transitivity on all triples of a sub-universe without any reference; find_max_version_tag on all ordered selections of <=3 tags.",
    note="Trusts the reference comparator; versions outside the universes not explored.",
    technique="exhaustive pair/triple enumeration over a finite version universe against a reference comparator", ref="C10"),
  "C11": dict(cat="model_checking",
@@ -27,11 +27,11 @@ CHECKS = {
    note="The order is the key stated in C11, not packaging's; field values outside the universe not explored.",
    technique="exhaustive pair/triple enumeration over a finite version x spelling universe against a reference key", ref="C11"),
  "C17": dict(cat="model_checking",
-   text="resolve_timestamp on every day 1970-01-01..2199-12-31 at the first/last second (thorough: every hour) x 16 patterns and every second of 12 boundary days, the 11 CalVer presets through the real in-process pipeline on month boundaries (thorough: every day), every pattern by name in a custom schema in each section, and the bumped/last timestamp precedence table, all judged by an independent days-from-civil calendar. The harness process runs under TZ=JST-9 and a binary slice under three TZ values, so local-time dependence is observable.",
+   text="resolve_timestamp on every day 1970-01-01..2199-12-31 at the first/last second (thorough: every hour) x 16 patterns and every second of 12 boundary days, the 11 CalVer presets through the real in-process pipeline on month boundaries (thorough: every day), every pattern by name in a custom schema in each section, the bumped/last timestamp precedence table, and real git repositories at 12 boundary instants (commit time = committer date, author date 500 days off in a +0900 zone; HEAD on the branch and detached at the tag) x 11 CalVer presets x 16 patterns, all judged by an independent days-from-civil calendar. The harness process runs under TZ=JST-9 and a binary slice under three TZ values, so local-time dependence is observable.",
    note="Trusts R-CAL (self-tested on fixed instants). Fixed-width forms only observable at resolve_timestamp.",
    technique="exhaustive enumeration of instants x patterns x presets against a reference calendar", ref="C17"),
  "C07": dict(cat="model_checking",
-   text="Full product of canonical SemVer shapes (core numbers incl. 2^32-1 x epoch x label/number x post x dev x build) rendered semver->semver, semver->pep440, pep440->semver, pep440->pep440 through the real `zerv render` entry point and compared with an independent formatter; out-of-range numerals (2^32, 2^64-1, 2^64, 23 digits) in every numeric position must be rejected or rendered exactly; a product of PEP 440 spellings for round-trip equality (judged by R-PEP's key) and fixed points; every SemVer whose pre-release is a token sequence of length <=4/5 over labels and numbers for the fixed-point / no-panic clause.",
+   text="Full product of canonical SemVer shapes (core numbers incl. 2^32-1 x epoch x label/number x post x dev x build incl. hash-like identifiers that start with 0) rendered semver->semver, semver->pep440, pep440->semver, pep440->pep440 through the real `zerv render` entry point and compared with an independent formatter; out-of-range numerals (2^32, 2^64-1, 2^64, 23 digits) in every numeric position must be rejected or rendered exactly; a product of PEP 440 spellings for round-trip equality (judged by R-PEP's key) and fixed points; every SemVer whose pre-release is a token sequence of length <=4/5 over labels and numbers for the fixed-point / no-panic clause.",
    note="Round-trip equality is version equality under R-PEP; numbers explored at 0/1/small and at the u32/u64 boundaries.",
    technique="exhaustive product / token-sequence enumeration through the real render pipeline against independent formatters", ref="C07"),
  "C06": dict(cat="model_checking",
@@ -39,7 +39,7 @@ CHECKS = {
    note="Trusts R-REN, R-SAN, R-CAL; component alphabet and lengths as stated; wall clock pinned by the LD_PRELOAD seam.",
    technique="exhaustive enumeration of schema programs x variable assignments against a reference renderer", ref="C06"),
  "C01": dict(cat="model_checking",
-   text="Every string over a 10-symbol alphabet (both cases, digits, separators, '+', non-ASCII letter/digit, 3-byte symbol) up to length 3/4 plus a pool of special texts (zero-padded digit runs around u32/u64, 300-char text, control characters, case-folding look-alikes) is placed in each of 6 text positions in turn and rendered under every preset that prints it and 5 custom schemas in both formats; numbers at the integer boundaries in 9 numeric variables; an in-process CLI layer (sources none/stdin, --schema/--schema-ron, --custom, --output-prefix, overrides, bumps) and a binary slice. Oracle: ASCII, reference grammar (R-SV / R-PEP normal form), accepted by zerv's own parser, re-render fixed point for presets, exactly one stdout line.",
+   text="Every string over a 10-symbol alphabet (both cases, digits, separators, '+', non-ASCII letter/digit, 3-byte symbol) up to length 3 (thorough 5) plus a pool of special texts (zero-padded digit runs around u32/u64, 300-char text, control characters, case-folding look-alikes) is placed in each of 6 text positions in turn and rendered under every preset that prints it and 5 custom schemas in both formats; numbers at the integer boundaries in 9 numeric variables; an in-process CLI layer (sources none/stdin, --schema/--schema-ron, --custom, --output-prefix, overrides, bumps) and a binary slice; an --output-prefix layer (every prefix up to length 3 over {space, v, TAB, -, é, 1} plus special prefixes x version/flow/render x both formats, differential: stdout == prefix ++ unprefixed output, in-process and through the binary). Oracle: ASCII, reference grammar (R-SV / R-PEP normal form), accepted by zerv's own parser, re-render fixed point for presets, exactly one stdout line.",
    note="Trusts R-SV/R-PEP (validated in C08/C09). Text alphabet and length as stated; git source covered by C02's states.",
    technique="bounded exhaustive enumeration of texts x positions x schemas x formats with grammar invariants as oracle", ref="C01"),
  "C05": dict(cat="model_checking",
@@ -51,11 +51,11 @@ CHECKS = {
    note="Trusts R-FLOW and R-SIP (self-tested against the README value); three behaviours left open by the statement are counted, not compared; wall clock pinned.",
    technique="exhaustive product enumeration of flow inputs against a reference law and an independent hash", ref="C04"),
  "C03": dict(cat="model_checking",
-   text="(i) Full product of final-release tags x branches x distance x dirty x post-mode x rule sets x hash lengths x label/post flags x the 11 standard presets x both formats through run_flow_pipeline; every output is compared by independent comparators (R-SV precedence, standard PEP 440 order) with X.Y.Z and X.Y.(Z+1), exactly X.Y.Z when clean at the tag; (ii) distance chains 0..6 per (tag, branch, rule set, preset, format) must be strictly increasing where the preset prints the post counter; (iii) every dev-less pre-release output fed back as a tag with --clean must be reproduced; (iv) on real git histories (C02's shape BFS x placements of final-release tags x HEAD x work-tree states) `zerv flow -C` is bounded by the model's nearest tag and a commit step on the checked-out branch must increase the version.",
+   text="(i) Full product of final-release tags x branches x distance x dirty x post-mode x rule sets x hash lengths x label/post flags x the 11 standard presets x both formats through run_flow_pipeline; every output is compared by independent comparators (R-SV precedence, standard PEP 440 order) with X.Y.Z and X.Y.(Z+1), exactly X.Y.Z when clean at the tag; (ii) distance chains 0..6 per (tag, branch, rule set, preset, format) must be strictly increasing where the preset prints the post counter; (iii) every dev-less pre-release output fed back as a tag with --clean must be reproduced, and (v) used as the base tag, 1..3 further commits on the same branch in commit post-mode must give strictly increasing versions above it and below X.Y.(Z+1); (iv) on real git histories (C02's shape BFS x placements of final-release tags x HEAD x work-tree states) `zerv flow -C` is bounded by the model's nearest tag and a commit step on the checked-out branch must increase the version.",
    note="Independent comparators; for the two presets that omit the pre-release part by explicit choice the upper bound is non-strict on the public part; wall clock pinned.",
    technique="exhaustive product + chain enumeration of flow runs judged by independent version comparators", ref="C03"),
  "C12": dict(cat="model_checking",
-   text="(a) ~5000 objects built directly (each string variable over 30 nasty strings incl. quotes, backslashes, control and RON-syntax look-alikes; numerics at 0/1/2^63/2^64-1; 25 custom JSON shapes; nasty text inside schema literals) under 22 presets + custom schemas: parse(emit(z))==z and byte-identical re-emission; (a2) ~290 version/flow jobs x 5 renderings: direct == piped through --source stdin (incl. epoch 0 overrides/bumps); (c) ~250 structurally generated schemas (every variable in every section, all orders/duplicates of Major/Minor/Patch, all secondary pairs, timestamp patterns, empty) on 4 entry paths: accepted iff R-SCH valid; (b) ~20k single-byte document mutants + garbage: no panic, rendered only when parseable with a valid schema and then well-formed.",
+   text="(a) ~5000 objects built directly (each string variable over 30 nasty strings incl. quotes, backslashes, control and RON-syntax look-alikes; numerics at 0/1/2^63/2^64-1; 25 custom JSON shapes; nasty text inside schema literals) under 22 presets + custom schemas: parse(emit(z))==z and byte-identical re-emission; (a2) ~290 version/flow jobs x 5 renderings: direct == piped through --source stdin (incl. epoch 0 overrides/bumps); (c) schema programs: every variable in every section, all orders/duplicates of Major/Minor/Patch, all secondary pairs, timestamp patterns, empty, plus every component sequence up to length 4/4/2 (thorough 6/6/4) per section over a 6-symbol alphabet (valid or not) with the other sections valid and the cross-section product of short sequences, on 4 entry paths: accepted iff R-SCH valid; (b) ~20k single-byte document mutants (thorough: also every pair of single-byte edits on a compact document, ~0.7M) + garbage: no panic, rendered only when parseable with a valid schema and then well-formed.",
    note="R-SCH; ts(\"%...\") and custom precedence orders outside the statement; parseability of mutants judged by zerv's RON parser (ron crate trusted).",
    technique="exhaustive per-field domain enumeration, structural schema generation and single-byte mutation of documents, with a reference validity predicate", ref="C12"),
  "C15": dict(cat="model_checking",
@@ -63,15 +63,15 @@ CHECKS = {
    note="Rendered templates are trimmed and none/null/nil collapse by design; R-SAN, R-SIP, R-CAL trusted.",
    technique="exhaustive enumeration of objects x templates and function arguments against reference models", ref="C15"),
  "C02": dict(cat="model_checking",
-   text="Two-layer explicit-state exploration of repository histories: (A) BFS over commit / branch&checkout / checkout / merge (fast-forward or true merge) from a one-commit repository, deduplicated on (DAG, branch refs), bounded by commits and branches; (B) every placement of up to 2 tags from a version/non-version/annotated/PEP-440-only alphabet on any commits x HEAD at every branch tip and detached at every commit x committer-date modes (increasing, decreasing, zig-zag); (C) every subset of 8 tag spellings on one commit x HEAD positions x the 3 input formats; (D) 8 work-tree states. Every state is materialised in real git (fast-import), conformance-checked against the model with git commands zerv does not use, then `zerv version -C` is judged against R-GIT: nearest validly tagged commit, highest tag (majority rule in auto mode), distance, dirty, branch, hashes, times, and 'no valid tag' reported as such.",
+   text="Two-layer explicit-state exploration of repository histories: (A) BFS over commit / branch&checkout / checkout / merge (fast-forward or true merge) from a one-commit repository, deduplicated on (DAG, branch refs), bounded by commits and branches; (B) every placement of up to 2 tags from a version/non-version/annotated/PEP-440-only alphabet on any commits x HEAD at every branch tip and detached at every commit x committer-date modes (increasing, decreasing, zig-zag, all equal); (C) every subset of 8 tag spellings on one commit x HEAD positions x the 3 input formats; (D) 15 work-tree states (modified, staged, untracked incl. nested, deleted, renamed, mode change, ignored file / directory, empty directory, staged-then-reverted); (E) 11 branch names (with '/', '.', non-ASCII, equal to a version tag, a non-version tag or a ref-namespace word) x a tag of the same short name x HEAD positions. Every commit carries an author date 500 days away from its committer date. Every state is materialised in real git (fast-import), conformance-checked against the model with git commands zerv does not use, then `zerv version -C` is judged against R-GIT: nearest validly tagged commit, highest tag (majority rule in auto mode), distance, dirty, branch, hashes, times, and 'no valid tag' reported as such.",
    note="R-GIT oracle; choice among equal-precedence tags / among members of the nearest-tag antichain left open; octopus merges, shallow clones, worktrees, submodules out of scope; wall cap recorded in evidence (exhaustive=false if hit).",
    technique="explicit-state BFS over repository operations x labelings, each state materialised in real git and judged by a reference model", ref="C02"),
  "C13": dict(cat="fault_enumeration",
-   text="(a) the flag set is read from Cli::command() at run time; for version and flow in 4 source contexts every single flag x a 37-value adversarial pool (non-ASCII, huge and negative numbers incl. isize::MIN, broken templates, bad chrono formats, malformed RON/JSON, NUL), every pair of flags x a 5-value pool, malformed stdin documents, render/check on nasty version strings, every template function x argument singles and pairs: ~34k in-process runs under catch_unwind (overflow checks on); (b) a strided slice through the real binary plain and with -v (exit/stream protocol, identical stdout), help/version/llm-help; (c) git fault enumeration: a PATH-injected git shim records the N git calls of a fault-free run for 6 repository scenarios x [version, flow], then every k<=N x 6 fault modes (exit 1, exit 128 'not a git repository', garbage output, empty output, SIGKILL, silent exit 1) is injected (thorough: every pair of fault points), plus git missing and bad -C targets.",
+   text="(a) the flag set is read from Cli::command() at run time; for version and flow in 4 source contexts every single flag x a 37-value adversarial pool (non-ASCII, huge and negative numbers incl. isize::MIN, broken templates, bad chrono formats, malformed RON/JSON, NUL), every pair of flags x a 5-value pool, malformed stdin documents, 133 custom precedence orders (every single, ordered pair, all-but-one, reversed) on stdin and via --schema-ron x every bump/override flag x a 5-value pool, render/check on nasty version strings, every template function x argument singles and pairs: ~34k in-process runs under catch_unwind (overflow checks on); (b) a strided slice through the real binary plain and with -v (exit/stream protocol, identical stdout), help/version/llm-help; (c) git fault enumeration: a PATH-injected git shim records the N git calls of a fault-free run for 6 repository scenarios x [version, flow], then every k<=N x 6 fault modes (exit 1, exit 128 'not a git repository', garbage output, empty output, SIGKILL, silent exit 1) is injected (thorough: every pair of fault points), plus git missing and bad -C targets; whenever zerv survives a git call that failed (non-zero status or killed) its stdout must equal the fault-free run's (also observed through --output-format zerv).",
    note="Faults at git-process granularity; stdout/stderr never closed under zerv; pools are adversarial but finite; `zerv` without sub-command (nothing requested, exit 0, empty stdout) is accepted.",
    technique="exhaustive single/pair enumeration of argument values and exhaustive single (thorough: double) git fault placement via a process shim", ref="C13"),
  "C14": dict(cat="model_checking",
-   text="~200 argument vectors (presets x clean/ahead/dirty x formats at timestamps straddling UTC midnight, templates with date and hash functions, ts() schemas, flow branch ids, stdin documents with non-ASCII text, three real git repositories whose HEAD times straddle UTC midnight) are each run in separate processes across the full product TZ x locale x working directory x unrelated environment x repetition with the wall clock pinned by an LD_PRELOAD seam; every (status, stdout, stderr) must equal the (UTC, C) reference; independent expectations from R-CAL / R-SIP; a second clock value must change nothing for clock-independent inputs and only timestamp-derived text otherwise; relative -C and in-repo cwd equal absolute -C.",
+   text="~200 argument vectors (presets x clean/ahead/dirty x formats at timestamps straddling UTC midnight, templates with date and hash functions, ts() schemas, flow branch ids, stdin documents with non-ASCII text, three real git repositories whose HEAD times straddle UTC midnight) are each run in separate processes across the full product TZ x locale x working directory x unrelated environment x repetition with the wall clock pinned by an LD_PRELOAD seam; every (status, stdout, stderr) must equal the (UTC, C) reference; independent expectations from R-CAL / R-SIP; a second clock value must change nothing for clock-independent inputs and only timestamp-derived text otherwise; relative -C and in-repo cwd equal absolute -C, also when the start directory has been removed (getcwd fails).",
    note="Independence is shown for the named environment dimensions only; the clock is owned by the seam (self-tested).",
    technique="exhaustive product enumeration of environments per argument vector with a pinned clock (differential across processes)", ref="C14"),
  "C18": dict(cat="model_checking",
